@@ -800,6 +800,12 @@ def k6_one_way_table(ctx, K: Kinds) -> None:
         for st in walk_local(f):
             if isinstance(st, ast.Assign) and any(norm(t) == "self._one_way_vertices" for t in st.targets) and isinstance(st.value, ast.Name):
                 tables.add(st.value.id)
+        for st in walk_local(f):
+            if isinstance(st, ast.Assign) and len(st.targets) == 1 and isinstance(st.targets[0], ast.Subscript) \
+                    and norm(st.targets[0].value) in tables and mname == "get_one_way_vertices":
+                n += 1
+                ctx.violation("K6", st, "an entry of the one-way adjacency table is *assigned*: two stored vertices that now share a representative must have "
+                              "their edge sets merged (`table[rep].add(...)`), an assignment keeps only the last one's edges")
         for c in walk_local(f):
             if isinstance(c, ast.Call) and isinstance(c.func, ast.Attribute) and c.func.attr == "add" \
                     and isinstance(c.func.value, ast.Subscript) and len(c.args) == 1:
@@ -893,13 +899,14 @@ def k8_strategy_parent_pairing(ctx, modules) -> None:
         if fi.module.short not in modules:
             continue
         f = fi.node
+        from ..core.pattern import assign_value
         for st in walk_local(f):
-            if not (isinstance(st, ast.Assign) and len(st.targets) == 1 and isinstance(st.targets[0], ast.Name)):
+            tgt0, v = assign_value(st)
+            if not isinstance(tgt0, ast.Name) or v is None:
                 continue
-            v = st.value
             if not (isinstance(v, ast.Subscript) and isinstance(v.value, ast.Attribute) and v.value.attr in ("rule_to_strategy", "eqv_rule_to_strategy")):
                 continue
-            sname = st.targets[0].id
+            sname = tgt0.id
             key = v.slice
             if isinstance(key, ast.Tuple) and len(key.elts) == 2:
                 ptxt = norm(key.elts[0])
@@ -1154,3 +1161,62 @@ def k12_union_find_discipline(ctx) -> None:
                     ctx.ok("K12", f"{m.qualname}: parent table only iterated / compared")
     if n < 2:
         ctx.floor("K12", 99)
+
+
+# ------------------------------------------------------------------------ K18
+def k18_tree_searcher_purity(ctx) -> None:
+    """The finders of tree_searcher receive the (cached) pruned dictionary: apart from
+    `prune`, which is documented to work in place on a fresh dictionary, none of them may
+    modify it -- neither the dictionary nor, through a shallow copy, the rule sets in it."""
+    P = ctx.P
+    mod = P.module("tree_searcher")
+    setmut = {"remove", "discard", "add", "clear", "pop", "update", "difference_update", "intersection_update"}
+    n = 0
+    for fi in mod.functions.values():
+        if fi.name == "prune":
+            continue
+        ps = fi.params()
+        if "rules_dict" not in ps:
+            continue
+        n += 1
+        f = fi.node
+        ctx.analysed(fi)
+        shallow = set()
+        deep = set()
+        for st in ast.walk(f):
+            if isinstance(st, (ast.Assign, ast.AnnAssign)):
+                t = st.targets[0] if isinstance(st, ast.Assign) else st.target
+                v = st.value
+                if isinstance(t, ast.Name) and v is not None:
+                    tv = norm(v)
+                    if tv in ("dict(rules_dict)", "rules_dict.copy()", "{**rules_dict}", "rules_dict", "copy(rules_dict)", "copy.copy(rules_dict)"):
+                        shallow.add(t.id)
+                    elif tv in ("deepcopy(rules_dict)", "copy.deepcopy(rules_dict)"):
+                        deep.add(t.id)
+        bad = []
+        for x in ast.walk(f):
+            # element-level mutation through the parameter or a shallow copy
+            if isinstance(x, ast.Call) and isinstance(x.func, ast.Attribute) and x.func.attr in setmut and isinstance(x.func.value, ast.Subscript) \
+                    and isinstance(x.func.value.value, ast.Name) and x.func.value.value.id in shallow | {"rules_dict"}:
+                bad.append(x)
+            # loop variables bound to elements of a shallow copy: for k, rule_set in list(rdict.items()): rule_set.remove(...)
+            if isinstance(x, ast.For) and isinstance(x.iter, ast.Call):
+                src = norm(x.iter)
+                for nm in shallow | {"rules_dict"}:
+                    if f"{nm}.items()" in src or f"{nm}.values()" in src:
+                        tgts = [t.id for t in ast.walk(x.target) if isinstance(t, ast.Name)]
+                        for y in ast.walk(x):
+                            if isinstance(y, ast.Call) and isinstance(y.func, ast.Attribute) and y.func.attr in setmut and isinstance(y.func.value, ast.Name) \
+                                    and y.func.value.id in tgts:
+                                bad.append(y)
+            # top-level mutation of the parameter itself
+            if isinstance(x, ast.Subscript) and isinstance(x.ctx, (ast.Store, ast.Del)) and isinstance(x.value, ast.Name) and x.value.id == "rules_dict":
+                bad.append(x)
+        if bad:
+            for b in bad[:2]:
+                ctx.violation("K18", C.stmt_of(b), f"{fi.qualname} modifies the rules dictionary it was given (through `{norm(b)[:50]}`): it is the database's cached "
+                              "pruned dictionary, so the next query is answered from a corrupted cache")
+        else:
+            ctx.ok("K18", f"{fi.qualname} does not modify the dictionary it is given" + (" (works on a deep copy)" if deep else ""))
+    if n < 6:
+        ctx.floor("K18", 99)
